@@ -200,6 +200,7 @@ type clRun struct {
 	present   map[string]bool
 	lastList  []types.Replica
 	removedAt map[string]time.Duration // address -> time it was last seen leaving the list
+	errSince  map[string]time.Duration // address -> when it was first seen listed in mode ERR (C05)
 	woSince   map[string]int           // address -> index of first io op issued after it appeared as WO
 
 	frameMu      sync.Mutex
@@ -942,6 +943,30 @@ func (cr *clRun) onQuiescent() {
 	for _, r := range list {
 		cr.lastMode[r.Address] = r.Mode
 	}
+	// C05: "marked failed and detached" - an entry in mode ERR is a transient state on the way
+	// out (SetMode(ERR) -> StopMonitoring -> monitor goroutine -> RemoveReplicaNoLock). With the
+	// controller lock free it may not linger beyond the hang limit; after settle not at all.
+	if cr.errSince == nil {
+		cr.errSince = map[string]time.Duration{}
+	}
+	for _, r := range list {
+		if r.Mode != types.ERR {
+			delete(cr.errSince, r.Address)
+			continue
+		}
+		t0, ok := cr.errSince[r.Address]
+		if !ok {
+			cr.errSince[r.Address] = cr.w.Now()
+		} else if cr.w.Now()-t0 > hangLimit {
+			cr.viol("C05", "failed-replica-never-detached", "%s has been listed in mode ERR for %v with the controller lock free: a failed replica must be detached (%v)", r.Address, cr.w.Now()-t0, list)
+			return
+		}
+	}
+	for a := range cr.errSince {
+		if !now[a] {
+			delete(cr.errSince, a)
+		}
+	}
 	// C18 invariants
 	seen := map[string]bool{}
 	wo := 0
@@ -1520,6 +1545,14 @@ func (cr *clRun) settle() {
 	cr.settled = ok
 	list := c.ctrl.ListReplicas()
 	rw := countMode(list, types.RW)
+	if !ok && cr.lockFree() {
+		for _, r := range list {
+			if r.Mode == types.ERR {
+				cr.viol("C05", "failed-replica-never-detached", "900 simulated seconds after all faults stopped %s is still listed in mode ERR: a failed replica must be detached, and it cannot come back while it is listed (%v)", r.Address, list)
+				return
+			}
+		}
+	}
 	// C03 bounded liveness: with a quorum and no faults the next write succeeds
 	if rw >= cr.quorum() && cr.lockFree() {
 		i := len(cr.s.Ops) + 1000 + len(cr.ios)
